@@ -35,6 +35,7 @@ type caseIn struct {
 	BaseBits  int                  `json:"base_bits"`
 	Writers   [][][]c13util.Piece  `json:"writers"`
 	Conn      memws.Options        `json:"conn"`
+	Caller    string               `json:"caller,omitempty"`   // "scribble" | "retain" (see runCase); empty = by the parity of conn.Seed
 	Loopback  string               `json:"loopback,omitempty"` // "gorilla": real gorilla backend over loopback HTTP (loopback.go)
 }
 
@@ -168,10 +169,17 @@ func runCase(ci *caseIn) (term string, observed map[string]interface{}, direct s
 					}
 				}()
 				for _, m := range msgs[w] {
-					if err := ta.Write(m); err != nil {
+					// the caller owns its buffer again as soon as Write has returned: it reuses
+					// it at once (the writer's dictionary must not alias it)
+					buf := append(make([]byte, 0, len(m)+64), m...)
+					if err := ta.Write(buf); err != nil {
 						mu.Lock()
 						werrs++
 						mu.Unlock()
+					}
+					full := buf[:cap(buf)]
+					for i := range full {
+						full[i] = 0x5A
 					}
 				}
 			}(w)
@@ -191,6 +199,15 @@ func runCase(ci *caseIn) (term string, observed map[string]interface{}, direct s
 		ok bool
 	}
 	reads := make([]rd, 0, len(wire))
+	type keptMsg struct {
+		idx int
+		m   []byte
+	}
+	var kept []keptMsg
+	callerMode := ci.Caller
+	if callerMode == "" {
+		callerMode = []string{"scribble", "retain"}[ci.Conn.Seed&1]
+	}
 	var readErr string
 	ok = guarded(func() {
 		defer func() {
@@ -207,9 +224,30 @@ func runCase(ci *caseIn) (term string, observed map[string]interface{}, direct s
 				reads = append(reads, rd{nil, false})
 				continue
 			}
+			// what Read returned, as compared right now ...
 			reads = append(reads, rd{append([]byte{}, m...), true})
+			// ... and then a hostile-but-legal caller: the slice is the caller's.  Either it is
+			// used as scratch space at once (over its whole capacity), or it is kept, untouched,
+			// and must still hold the message at the end of the case.
+			if callerMode == "scribble" {
+				full := m[:cap(m)]
+				for i := range full {
+					full[i] = 0xA5
+				}
+			} else {
+				kept = append(kept, keptMsg{len(reads) - 1, m})
+			}
 		}
 	})
+	// retained messages are reported as they are NOW (a message that changed after Read returned
+	// it then differs from what was written)
+	retainedChanged := 0
+	for _, k := range kept {
+		if !bytes.Equal(k.m, reads[k.idx].b) {
+			retainedChanged++
+			reads[k.idx].b = append([]byte{}, k.m...)
+		}
+	}
 	if !ok {
 		return "", nil, "Transport.Read did not return within the watchdog"
 	}
@@ -287,7 +325,10 @@ func runCase(ci *caseIn) (term string, observed map[string]interface{}, direct s
 	observed = map[string]interface{}{
 		"wire_messages": len(wire), "independently_decoded": decOK, "reads_ok": nReadOK, "write_errors": werrs,
 		"tx": tx, "rx": rx, "decoder_mode": dec.mode, "decoder_window": dec.W,
-		"readers_not_drained_to_eof": b.Undrained,
+		"readers_not_drained_to_eof": b.Undrained, "caller": callerMode,
+	}
+	if retainedChanged > 0 {
+		observed["retained_messages_changed_after_read"] = retainedChanged
 	}
 	if readErr != "" {
 		observed["first_read_error"] = readErr
@@ -567,6 +608,92 @@ func genIncompressible(r *rng.R) (*caseIn, string, bool) {
 	return ci, "takeover-smallwin-incompressible", true
 }
 
+// genAliasing: ONE writer, context takeover, level >= 2, window 2^8..2^15; messages at least as
+// large as the window, each followed by small messages that copy from the tail of what was
+// written before (so the sender back-references the dictionary) - enough of them to fill the
+// spare capacity of a buffer the size of the large message.  Together with the caller discipline
+// of runCase (scribble over / retain every returned message, reuse every written buffer) this
+// finds a dictionary that shares memory with a caller's slice.
+// longTail: one large message and then so many small ones that a buffer built on the large
+// message's array runs out of spare capacity and slides (bytes.Buffer grows by copying down inside
+// the same array): the case for the RETAINING caller.
+func genAliasing(r *rng.R, bitsChoice []int, longTail bool) (*caseIn, string, bool) {
+	ci := &caseIn{}
+	genParams(r, ci, 2)
+	if *ci.Level < 2 {
+		ci.Level = ip(2 + r.Intn(8))
+	}
+	ci.Comp = "context-takeover"
+	bits := bitsChoice[r.Intn(len(bitsChoice))]
+	ci.Bits = ip(bits)
+	W := 1 << uint(bits)
+	var ms [][]c13util.Piece
+	hist := 0
+	rounds := 1 + r.Intn(2)
+	if longTail {
+		rounds = 1
+		ci.Caller = "retain"
+	}
+	for k := 0; k < rounds; k++ {
+		big := W + []int{0, 1, 7, W / 2, W}[r.Intn(5)]
+		if longTail {
+			// the slice Read returns comes from a bytes.Buffer filled by io.Copy: capacity 512*2^j.
+			// A length just above a power of two P >= 2W leaves ~P bytes of spare capacity - more
+			// than window + 2 small messages, which is when bytes.Buffer slides instead of reallocating
+			P := []int{2 * W, 4 * W}[r.Intn(2)]
+			if P < 512 {
+				P = 512
+			}
+			big = P + 5 + r.Intn(P/4)
+		}
+		ms = append(ms, []c13util.Piece{{Kind: "rnd", Seed: r.U64() % 2147483648, N: big}})
+		hist += big
+		small := 0
+		target, maxMsgs := big+big/4, 40
+		if longTail { // io.Copy into a bytes.Buffer leaves up to ~4x the message as spare capacity
+			// and the slide happens only when the message that exhausts it is small: keep them small
+			target, maxMsgs = big+300, 220
+		}
+		for small < target && len(ms) < maxMsgs {
+			var ps []c13util.Piece
+			n := 0
+			np := 1 + r.Intn(3)
+			if longTail {
+				np = 1 + r.Intn(2)
+			}
+			for j := 0; j < np; j++ {
+				d := 1 + r.Intn(minInt(W, hist+n))
+				nn := minInt(d, 8+r.Intn(56))
+				if longTail {
+					nn = minInt(d, 8+r.Intn(28))
+				}
+				ps = append(ps, c13util.Piece{Kind: "back", D: d, N: nn})
+				n += nn
+				if r.Chance(1, 3) {
+					ps = append(ps, c13util.Piece{Kind: "lit", Bytes: r.Bytes(1 + r.Intn(3))})
+					n += len(ps[len(ps)-1].Bytes)
+				}
+			}
+			if W > 256 && r.Bool() && !longTail { // a longer small message (still below the window)
+				nn := minInt(W-1-n, 100+r.Intn(W/4))
+				if nn > 0 {
+					ps = append(ps, c13util.Piece{Kind: "back", D: minInt(W, hist+n), N: minInt(nn, minInt(W, hist+n))})
+					n += ps[len(ps)-1].N
+				}
+			}
+			ms = append(ms, ps)
+			hist += n
+			small += n
+		}
+	}
+	ci.Writers = [][][]c13util.Piece{ms}
+	ci.Conn = genConn(r, false)
+	if longTail {
+		return ci, "takeover-aliasing-longtail", true
+	}
+	return ci, "takeover-aliasing", true
+}
+
 func main() {
 	seed := flag.Uint64("seed", 1, "seed")
 	tier := flag.String("tier", "quick", "quick|thorough")
@@ -677,7 +804,28 @@ func main() {
 			}
 		}
 	}
+	nAlias := 40
+	aliasBits := []int{8, 8, 9, 9, 10, 10, 11, 12}
+	if *tier == "thorough" {
+		nAlias = 600
+		aliasBits = []int{8, 9, 10, 11, 12, 13, 14, 15}
+	}
 	for i := 0; i < nSeq; i++ {
+		if i%(nSeq/nAlias) == 1 { // aliasing cases (large windows: slow to judge) are spread over the shards
+			cr := r.Fork()
+			ci, kind, nt := genAliasing(cr, aliasBits, false)
+			switch k := (i / (nSeq / nAlias)) % 16; {
+			case k == 5: // a few at the largest windows also in the quick tier
+				ci, kind, nt = genAliasing(r.Fork(), []int{13, 15}, false)
+			case k%4 == 2: // a quarter: the long tail for the retaining caller
+				lb := []int{8, 9}
+				if *tier == "thorough" {
+					lb = []int{8, 9, 10, 12}
+				}
+				ci, kind, nt = genAliasing(r.Fork(), lb, true)
+			}
+			add(ci, kind, nt, "")
+		}
 		cr := r.Fork()
 		wm := []int{2, 2, 2, 2, 1, 0, -1}[cr.Intn(7)]
 		ci, kind, nt := genSequential(cr, wm, false)
@@ -735,7 +883,7 @@ func main() {
 		}
 		add(ci, "gorilla-loopback-concurrent", true, sigGorilla)
 	}
-	rule := "grid: every negotiated setting {'',per-message,context-takeover} x clevel {nil,0..9} x cwinbits {nil,0,1,8,9,15,16,32} with random base config, 4 messages; sequential: 3-10 messages with sizes at 0..4, W-1, W, W+1, 2W-1, 2W, 2W+1, 3W+1 and random, content = pseudo-random runs interleaved with copies of earlier content from distances <=W, W, W+1, (W,2W], 2W; bigwin: windows 2^15, 2^16, 2^32 with messages up to 3W; smallwin-incompressible: ONE writer, window bits {0..6,8}, a short message then 2-4 pseudo-random messages of 40..3000 bytes (the shape of F28); concurrent: 2-4 writer goroutines, in-memory Conn whose Writer() yields/sleeps before taking the message lock; reader chunk sizes {whole,1,7,512,4096}, EOF with or after the last bytes; strict-eof: sequential cases on a Conn that refuses Reader() until the previous message was read to io.EOF (coder/nhooyr rule). non-trivial = context-takeover with >=3 messages, or concurrent writers; distinct = distinct Coq case terms"
+	rule := "grid: every negotiated setting {'',per-message,context-takeover} x clevel {nil,0..9} x cwinbits {nil,0,1,8,9,15,16,32} with random base config, 4 messages; sequential: 3-10 messages with sizes at 0..4, W-1, W, W+1, 2W-1, 2W, 2W+1, 3W+1 and random, content = pseudo-random runs interleaved with copies of earlier content from distances <=W, W, W+1, (W,2W], 2W; bigwin: windows 2^15, 2^16, 2^32 with messages up to 3W; smallwin-incompressible: ONE writer, window bits {0..6,8}, a short message then 2-4 pseudo-random messages of 40..3000 bytes (the shape of F28); concurrent: 2-4 writer goroutines, in-memory Conn whose Writer() yields/sleeps before taking the message lock; reader chunk sizes {whole,1,7,512,4096}, EOF with or after the last bytes; aliasing: ONE writer, takeover, level >= 2, windows 2^8..2^15, messages >= window each followed by small messages copying from the previous tail (a quarter with a long tail of 6x the message, for the retaining caller); caller discipline in EVERY case: each buffer passed to Write is overwritten as soon as Write returns, each message returned by Read is compared at once and then either overwritten over its whole capacity (half of the cases) or retained and compared again at the end of the case; strict-eof: sequential cases on a Conn that refuses Reader() until the previous message was read to io.EOF (coder/nhooyr rule). non-trivial = context-takeover with >=3 messages, or concurrent writers; distinct = distinct Coq case terms"
 	if err := w.Flush(*seed, *tier, rule, false, nil); err != nil {
 		fmt.Fprintln(os.Stderr, err)
 		os.Exit(2)
